@@ -352,17 +352,38 @@ func storesUserKey(i ssa.Instruction, fn *ssa.Function) bool {
 }
 
 // storesParamIntoKey: instruction i stores parameter key into a node's Key
-// slice, directly or by handing it to a (static) callee that does.
-func storesParamIntoKey(i ssa.Instruction, key *ssa.Parameter, depth int) bool {
+// slice, directly or by handing it to a (static) callee that does. keySlices
+// are parameters of the function i sits in that are bound to a node's Key
+// slice by the caller (insertAt(node.Key, i, key)).
+func storesParamIntoKey(i ssa.Instruction, key *ssa.Parameter, depth int, keySlices ...*ssa.Parameter) bool {
+	isKeySlice := func(v ssa.Value) bool {
+		if _, f, ok := nodeSliceRoot(v); ok && f == "Key" {
+			return true
+		}
+		if p := sliceRootParam(v, 0); p != nil {
+			for _, q := range keySlices {
+				if p == q {
+					return true
+				}
+			}
+		}
+		return false
+	}
 	if call, ok := i.(*ssa.Call); ok && depth < 3 {
-		if callee := call.Call.StaticCallee(); callee != nil && callee.Blocks != nil {
+		if callee := ir.Callee(call.Call); callee != nil && callee.Blocks != nil {
+			var ks []*ssa.Parameter
+			for ai, a := range call.Call.Args {
+				if ai < len(callee.Params) && isKeySlice(a) {
+					ks = append(ks, callee.Params[ai])
+				}
+			}
 			for ai, a := range call.Call.Args {
 				if ir.ResolveCell(ir.Strip(a)) != ssa.Value(key) || ai >= len(callee.Params) {
 					continue
 				}
 				for _, b := range callee.Blocks {
 					for _, ci := range b.Instrs {
-						if storesParamIntoKey(ci, callee.Params[ai], depth+1) {
+						if storesParamIntoKey(ci, callee.Params[ai], depth+1, ks...) {
 							return true
 						}
 					}
@@ -376,14 +397,14 @@ func storesParamIntoKey(i ssa.Instruction, key *ssa.Parameter, depth int) bool {
 			return false
 		}
 		if ia, ok := x.Addr.(*ssa.IndexAddr); ok {
-			if _, f, ok := nodeSliceRoot(ia.X); ok && f == "Key" {
+			if isKeySlice(ia.X) {
 				return true
 			}
 			// varargs slice for append(node.Key, key): see the append below
 		}
 	case *ssa.Call:
 		if b, ok := x.Call.Value.(*ssa.Builtin); ok && b.Name() == "append" && len(x.Call.Args) == 2 {
-			if _, f, ok := nodeSliceRoot(x.Call.Args[0]); ok && f == "Key" {
+			if isKeySlice(x.Call.Args[0]) {
 				for _, v := range varargValues(x.Call.Args[1]) {
 					if ir.ResolveCell(ir.Strip(v)) == ssa.Value(key) {
 						return true
